@@ -42,8 +42,14 @@ def _match_one(x, m):
 
 def compare(op, impl, model):
     kind = op.split(" ", 1)[0]
-    if kind not in ("upd", "eoi", "setup"):
+    if kind not in ("upd", "eoi", "setup", "uimg", "post", "init"):
         return impl == model
+    if kind in ("post", "init"):      # no arithmetic between the observation and the answer: exact
+        a, b = impl.split(), model.split()
+        try:
+            return len(a) == len(b) and bool(a) and all(Fraction(float.fromhex(x)) == Fraction(m) for x, m in zip(a, b))
+        except (ValueError, ZeroDivisionError, OverflowError):
+            return False
     a, b = impl.split(), model.split()
     if len(a) != len(b) or not a:
         return False
